@@ -412,9 +412,10 @@ nni_id_alloc(nni_id_map *m, uint64_t *idp, void *val)
 
 	for (;;) {
 		id = m->id_dyn_val;
-		m->id_dyn_val++;
-		if (m->id_dyn_val > m->id_max_val) {
+		if (id >= m->id_max_val) {
 			m->id_dyn_val = m->id_min_val;
+		} else {
+			m->id_dyn_val = id + 1;
 		}
 
 		if (id_find(m, id) == (size_t) -1) {
